@@ -48,6 +48,14 @@ Theorem C11_configured_grader_history_independent :
 Proof. exact configured_code. Qed.
 Print Assumptions C11_configured_grader_history_independent.
 
+(* ... and no history ever replaces the configured answers or leaves a flag set *)
+Theorem C11_configured_grader_state_untouched :
+  forall (E S A L : Type) (dm : bool) (cfg : config) (O : oracles E S A L) (a : A) (h : list (event E S)),
+  let m := run dm cfg O create_prog call_prog (init_state (Some a)) h in
+  st_answers m = Some a /\ st_inferring m = false /\ st_created m = false.
+Proof. exact configured_state_untouched. Qed.
+Print Assumptions C11_configured_grader_state_untouched.
+
 (* (b) graders inferring their answers from expect: the full statement restricted to histories whose events are
    `event_clean` -- no expect value that passes the schema but fails post-validation, and, when debug output is on,
    no expect value failing the schema and no valid expect value accompanied by a non-text input.
@@ -136,6 +144,18 @@ Theorem C11_repaired_call_history_independent :
   = spec dm cfg O create_prog call_prog_repaired configured h e s.
 Proof. exact (@repaired_full). Qed.
 Print Assumptions C11_repaired_call_history_independent.
+
+(* after any history the instance state is a function of the last successfully supplied expect value alone *)
+Theorem C11_repaired_state_determined_by_last_supplied_expect :
+  forall (E S A L : Type) (dm : bool) (cfg : config) (O : oracles E S A L) (h : list (event E S)),
+  let m := run dm cfg O create_prog call_prog_repaired (init_state None) h in
+  st_created m = false /\
+  match last_supplied O None h with
+  | None => st_answers m = None /\ st_inferring m = false
+  | Some ev => exists a, validated O ev = Some a /\ st_answers m = Some a /\ st_inferring m = true
+  end.
+Proof. exact repaired_state_determined. Qed.
+Print Assumptions C11_repaired_state_determined_by_last_supplied_expect.
 
 (* the debug log handed back speaks of the current call only (its input, its expect value) *)
 Theorem C11_repaired_debuglog_fresh_each_call :
